@@ -180,6 +180,13 @@ class Run(object):
                     self.sim.event("650 HS_DESC FAILED %s UNKNOWN %s REASON=UPLOAD_REJECTED\r\n" % (SID, d1))
                 else:
                     self.sim.event("650 HS_DESC UPLOADED %s UNKNOWN %s\r\n" % (SID, d1))
+            elif a == "Foreign":
+                other, d2 = "otherotherother3", "$" + "CD" * 20
+                self.sim.event("650 HS_DESC UPLOAD %s UNKNOWN %s desc\r\n" % (other, d2))
+                if e.get("kind") == "fail":
+                    self.sim.event("650 HS_DESC FAILED %s UNKNOWN %s REASON=UPLOAD_REJECTED\r\n" % (other, d2))
+                else:
+                    self.sim.event("650 HS_DESC UPLOADED %s UNKNOWN %s\r\n" % (other, d2))
             elif a == "Disconnect":
                 self.proto.connectionLost(failure.Failure(error.ConnectionLost("injected")))
             elif a == "StopListening":
@@ -264,17 +271,27 @@ SCRIPTS = {
 }
 
 
-def replay(cfg, fault):
+def replay(cfg, fault, noise=""):
+    """noise: "" | "up" | "fail": descriptor events of another service arrive while the creation command is
+    outstanding and again during the descriptor wait"""
     run = Run(cfg, fault)
     steps = []
-    for a in script_for(cfg, fault):
-        e = dict(a=a)
+    script = [dict(a=a) for a in script_for(cfg, fault)]
+    if noise:
+        out = []
+        for i, e in enumerate(script):
+            out.append(e)
+            nxt = script[i + 1]["a"] if i + 1 < len(script) else ""
+            if nxt in ("CreateReply", "WaitOver") or (nxt == "Disconnect" and e["a"] != "Listen"):
+                out.append(dict(a="Foreign", kind=noise))
+        script = out
+    for e in script:
         e["obs"] = run.step(e)
         steps.append(e)
         if run.exc:
             break
     run.close()
-    return dict(steps=steps, cfg=cfg, fault=fault, cfgnow=cfg.startswith("tor_"), public=run.public, hostname=SID + ".onion", errors=run.errors[:2])
+    return dict(steps=steps, cfg=cfg, fault=fault, noise=noise, cfgnow=cfg.startswith("tor_"), public=run.public, hostname=SID + ".onion", errors=run.errors[:2])
 
 
 class _Sink(object):
